@@ -359,6 +359,12 @@ def deck():
     cell("link/relink", ["set_link", B, A], ["set_link", B, C])
     cell("link/relink-unresolvable", ["set_link", B, A], ["set_link", B, "/nowhere"])
     cell("link/then-edit", ["set_link", B, A], ["rename", C, enc("cc")], ["clean", D], ["finalize", D])
+    cell("include/unavailable-attached", ["set_include", B, "file:///nonexistent/res.xml#/a"])
+    cell("include/unavailable-attached-no-path", ["set_include", B, "file:///nonexistent/res.xml"])
+    cell("include/unavailable-detached", ["set_include", X, "file:///nonexistent/res.xml#/a"], ["append", D, X],
+         ["finalize", D])
+    cell("include/with-link-set", ["set_link", B, A], ["set_include", B, "file:///nonexistent/res.xml#/a"])
+    cell("include/to-none", ["set_include", B, None])
     cell("finalize/clean-plain", ["finalize", D], ["clean", D], ["clean", A], ["clean", P])
     for obj, on in ((A, "sec"), (P, "prop"), (D, "doc")):
         cell("new_id/%s/fresh" % on, ["new_id", obj, None])
